@@ -624,6 +624,7 @@ func execOp(line string) string {
 	case "framed":
 		return guarded(func() string {
 			p := getBody(NewR(args), kind)
+			size := p.MarshalSize() // what a caller sizing a buffer sees: taken before Marshal
 			b, err := p.Marshal()
 			if err != nil {
 				return "err"
@@ -635,7 +636,10 @@ func execOp(line string) string {
 				putHeader(w, h)
 				hs = w.String()
 			}
-			return fmt.Sprintf("ok %d %d %s", len(b), p.MarshalSize(), hs)
+			if after := p.MarshalSize(); after != size {
+				return fmt.Sprintf("ok %d %d %s size-after-Marshal=%d", len(b), size, hs, after)
+			}
+			return fmt.Sprintf("ok %d %d %s", len(b), size, hs)
 		})
 	case "rtdst":
 		return guarded(func() string {
@@ -793,6 +797,9 @@ func execEnc(kind string, r *R) string {
 		p := getBody(r, kind)
 		b, err := p.Marshal()
 		if err != nil {
+			if len(b) != 0 {
+				return fmt.Sprintf("err-with-bytes %d", len(b))
+			}
 			return "err"
 		}
 		// Marshal fills in the blocks' header fields through the pointers: report the value afterwards
@@ -800,6 +807,9 @@ func execEnc(kind string, r *R) string {
 	}
 	b, err := marshalAny(kind, r)
 	if err != nil {
+		if len(b) != 0 {
+			return fmt.Sprintf("err-with-bytes %d", len(b))
+		}
 		return "err"
 	}
 	return okHex(b)
